@@ -1,2 +1,21 @@
-From RSP Require Import Base.
-Theorem C01_placeholder : True. Proof. exact I. Qed.
+(* C01 -- Requests reach the routed server intact, exactly once (rewrite-engine part; the handler
+   pipeline theorems are added with the Proxy model).  Statements only. *)
+From RSP Require Import Base Consts Ttl Rewrite Spec_C01 Rewrite_proofs.
+Local Open Scope N_scope.
+
+(* For every regex engine (arbitrary oracle), every rewrite block the parser can build (types 1..255
+   in its remove/whitelist list) and every attribute list: the attributes that no rule of the block
+   names come out byte-identical, exactly once and in their original order, and whatever follows them
+   is a sub-sequence of the configured supplement attributes followed by the configured additions. *)
+Theorem C01_rewrite_untouched : forall rx attrs w out, rw_ok w = true ->
+  dorewrite rx attrs (Some w) = Some out -> spec_rewrite_untouched w attrs out = true.
+Proof. exact dorewrite_untouched. Qed.
+Print Assumptions C01_rewrite_untouched.
+
+(* non-vacuity: a block removing type 5 and modifying type 1 leaves type 4 and type 0 alone *)
+Example C01_example :
+  let w := mkRewrite false (Some [5]) None [mkTlv 200 [1]] [mkMod 1 0 0 [120]] [] [] in
+  let rx := fun (_ : N) (_ : bytes) => Some [(0, 1)%Z] in
+  rw_ok w = true /\
+  dorewrite rx [mkTlv 4 [9]; mkTlv 5 [1]; mkTlv 0 [7]; mkTlv 1 [97]] (Some w) = Some [mkTlv 4 [9]; mkTlv 0 [7]; mkTlv 1 [120]; mkTlv 200 [1]].
+Proof. vm_compute. split; reflexivity. Qed.
